@@ -117,9 +117,9 @@ func (view *View) group(ctx context.Context, scope *ReferenceScope, items []pars
 
 	gm := NewGoroutineTaskManager(view.RecordLen(), -1, scope.Tx.Flags.CPU)
 	groupsList := make([]map[string][]int, gm.Number)
+	groupKeysList := make([][]string, gm.Number)
 	groupKeyCnt := make(map[string]int, 40)
 	groupKeys := make([]string, 0, 40)
-	mtx := &sync.Mutex{}
 
 	var grpFn = func(thIdx int) {
 		defer func() {
@@ -138,6 +138,7 @@ func (view *View) group(ctx context.Context, scope *ReferenceScope, items []pars
 		verifhook.Worker("group", thIdx, gm.Number)
 		seqScope := scope.CreateScopeForSequentialEvaluation(view)
 		groups := make(map[string][]int, 20)
+		keys := make([]string, 0, 20)
 		values := make([]value.Primary, len(items))
 
 	GroupKeyLoop:
@@ -172,16 +173,12 @@ func (view *View) group(ctx context.Context, scope *ReferenceScope, items []pars
 			} else {
 				groups[key] = make([]int, 0, int(math.Min(float64(view.RecordLen()/18), 1000)))
 				groups[key] = append(groups[key], i)
-				mtx.Lock()
-				if _, ok := groupKeyCnt[key]; !ok {
-					groupKeyCnt[key] = 0
-					groupKeys = append(groupKeys, key)
-				}
-				mtx.Unlock()
+				keys = append(keys, key)
 			}
 		}
 
 		groupsList[thIdx] = groups
+		groupKeysList[thIdx] = keys
 	}
 
 	if 1 < gm.Number {
@@ -201,6 +198,16 @@ func (view *View) group(ctx context.Context, scope *ReferenceScope, items []pars
 		return ConvertContextError(ctx.Err())
 	}
 
+	// Keys are collected in the order of their first appearance in the records,
+	// independent of the number and scheduling of the goroutines.
+	for i := range groupKeysList {
+		for _, k := range groupKeysList[i] {
+			if _, ok := groupKeyCnt[k]; !ok {
+				groupKeyCnt[k] = 0
+				groupKeys = append(groupKeys, k)
+			}
+		}
+	}
 	for i := range groupsList {
 		for k := range groupsList[i] {
 			groupKeyCnt[k] = groupKeyCnt[k] + len(groupsList[i][k])
